@@ -636,7 +636,7 @@ MALFORMED = [
 
 
 def generate(rng: random.Random, tier: str):
-    n = 2000 if tier == "quick" else 50000
+    n = 6000 if tier == "quick" else 100000
     out = []
     for _ in range(n):
         out += history(rng, tier)
